@@ -34,3 +34,1148 @@ Theorem model_equivariant_msep : forall f g X Y Z, injective f ->
   msep_model (rmap f g) (map f X) (map f Y) (map f Z) = msep_model g X Y Z.
 Proof. intros f g X Y Z Hf. exact (msep_model_rmap f Hf g X Y Z). Qed.
 Print Assumptions model_equivariant_msep.
+
+(* ====================================================================================================================
+   spec_equivariant_A / spec_order_free_A for every algorithm A (DESIGN section 5, C15): each property's Prop-level spec
+   (its Spec.v) commutes with every one-to-one renaming of the nodes [rmap f] and depends on the node / edge lists only
+   as sets [gequiv]; plus model-level corollaries where the property has an unbounded model = spec theorem.
+   Proofs: Graph/RenameMore.v, C15/Equiv_*.v.
+   ==================================================================================================================== *)
+From PG Require Import Base.ListSet Base.Closure Graph.RenameMore.
+From PG Require Import C12.Model C12.Spec C10.Model C10.Spec C04.Dag C05.Model C06.Model C06.Spec C07.Model C07.Spec
+  C19.Model C19.Spec C11.Spec C08.Model C08.Spec C09.Model C09.Spec C16.Model C16.Paths C16.Spec C17.Model C17.Spec C18.Model C18.Spec.
+From PG Require C15.Equiv_C12 C15.Equiv_C10 C15.Equiv_C10s C15.Equiv_C0405 C15.Equiv_C06 C15.Equiv_C07 C15.Equiv_C19 C15.Equiv_C11
+  C15.Equiv_C0809 C15.Equiv_C16 C15.Equiv_C17 C15.Equiv_C18.
+
+(* ---- C12: collider-connectedness (spec), moral_adj / moral graph / criterion (model) ---- *)
+Theorem spec_equivariant_c12_collider_path :
+  forall f : nat -> nat,
+  injective f ->
+  forall (g : mgraph) (a : nat) (p : spath) (b : nat),
+  collider_path (rmap f g) (f a) (mp f p) (f b) <-> collider_path g a p b.
+Proof. exact Equiv_C12.collider_path_rmap. Qed.
+Print Assumptions spec_equivariant_c12_collider_path.
+
+Theorem spec_equivariant_c12_collider_connected :
+  forall f : nat -> nat,
+  injective f ->
+  forall (g : mgraph) (a b : nat), collider_connected (rmap f g) (f a) (f b) <-> collider_connected g a b.
+Proof. exact Equiv_C12.collider_connected_rmap. Qed.
+Print Assumptions spec_equivariant_c12_collider_connected.
+
+Theorem spec_order_free_c12_collider_path :
+  forall (g g' : mgraph) (a : nat) (p : spath) (b : nat),
+  gequiv g g' -> collider_path g a p b <-> collider_path g' a p b.
+Proof. exact Equiv_C12.collider_path_gequiv. Qed.
+Print Assumptions spec_order_free_c12_collider_path.
+
+Theorem spec_order_free_c12_collider_connected :
+  forall (g g' : mgraph) (a b : nat), gequiv g g' -> collider_connected g a b <-> collider_connected g' a b.
+Proof. exact Equiv_C12.collider_connected_gequiv. Qed.
+Print Assumptions spec_order_free_c12_collider_connected.
+
+Theorem model_equivariant_c12_moral_adj :
+  forall f : nat -> nat,
+  injective f -> forall (g : mgraph) (a b : nat), moral_adj (rmap f g) (f a) (f b) = moral_adj g a b.
+Proof. exact Equiv_C12.moral_adj_rmap. Qed.
+Print Assumptions model_equivariant_c12_moral_adj.
+
+Theorem model_order_free_c12_moral_adj :
+  forall (g g' : mgraph) (a b : nat), gequiv g g' -> moral_adj g a b = moral_adj g' a b.
+Proof. exact Equiv_C12.moral_adj_gequiv. Qed.
+Print Assumptions model_order_free_c12_moral_adj.
+
+Theorem model_equivariant_c12_moral_graph :
+  forall f : nat -> nat,
+  injective f -> forall g : mgraph, gequiv (moral_graph (rmap f g)) (rmap f (moral_graph g)).
+Proof. exact Equiv_C12.moral_graph_rmap. Qed.
+Print Assumptions model_equivariant_c12_moral_graph.
+
+Theorem model_order_free_c12_moral_graph :
+  forall g g' : mgraph, gequiv g g' -> gequiv (moral_graph g) (moral_graph g').
+Proof. exact Equiv_C12.moral_graph_gequiv. Qed.
+Print Assumptions model_order_free_c12_moral_graph.
+
+Theorem model_equivariant_c12_moral_sep :
+  forall f : nat -> nat,
+  injective f ->
+  forall (g : mgraph) (X Y Z : list nat), moral_sep (rmap f g) (map f X) (map f Y) (map f Z) = moral_sep g X Y Z.
+Proof. exact Equiv_C12.moral_sep_rmap. Qed.
+Print Assumptions model_equivariant_c12_moral_sep.
+
+Theorem spec_equivariant_c12_in_domain :
+  forall f : nat -> nat, injective f -> forall g : mgraph, in_domain (rmap f g) <-> in_domain g.
+Proof. exact Equiv_C12.in_domain_rmap. Qed.
+Print Assumptions spec_equivariant_c12_in_domain.
+
+Theorem spec_equivariant_c12_criterion :
+  forall f : nat -> nat,
+  injective f ->
+  forall (g : mgraph) (X Y Z : list nat),
+  Equiv_C12.criterion_holds (rmap f g) (map f X) (map f Y) (map f Z) <-> Equiv_C12.criterion_holds g X Y Z.
+Proof. exact Equiv_C12.criterion_rmap. Qed.
+Print Assumptions spec_equivariant_c12_criterion.
+
+Theorem model_equivariant_c12_moral_adjacency :
+  forall f : nat -> nat,
+  injective f ->
+  forall (g : mgraph) (a b : nat),
+  wf g ->
+  a <> b ->
+  In a (V g) ->
+  In b (V g) -> moral_adj (rmap f g) (f a) (f b) = true <-> skel_adj g a b = true \/ collider_connected g a b.
+Proof. exact Equiv_C12.moral_adjacency_renamed. Qed.
+Print Assumptions model_equivariant_c12_moral_adjacency.
+
+
+(* ---- C10: canonical DAG ---- *)
+Theorem spec_equivariant_c10_is_admg :
+  forall f : nat -> nat, injective f -> forall g : mgraph, C10.Spec.is_admg (rmap f g) <-> C10.Spec.is_admg g.
+Proof. exact Equiv_C10.is_admg_rmap. Qed.
+Print Assumptions spec_equivariant_c10_is_admg.
+
+Theorem spec_order_free_c10_is_admg :
+  forall g g' : mgraph, gequiv g g' -> C10.Spec.is_admg g <-> C10.Spec.is_admg g'.
+Proof. exact Equiv_C10.is_admg_gequiv. Qed.
+Print Assumptions spec_order_free_c10_is_admg.
+
+Theorem model_equivariant_c10_canon_sep :
+  forall f : nat -> nat,
+  injective f ->
+  forall (g : mgraph) (fresh fresh' : nat -> nat) (X Y Z : list nat),
+  wf g ->
+  U g = nil ->
+  fresh_ok g fresh ->
+  fresh_ok (rmap f g) fresh' ->
+  incl X (V g) ->
+  incl Y (V g) ->
+  incl Z (V g) ->
+  msep (canon_model (rmap f g) fresh') (map f X) (map f Y) (map f Z) <-> msep (canon_model g fresh) X Y Z.
+Proof. exact Equiv_C10.canon_sep_rmap. Qed.
+Print Assumptions model_equivariant_c10_canon_sep.
+
+Theorem model_order_free_c10_canon_sep :
+  forall (g g' : mgraph) (fresh fresh' : nat -> nat) (X X' Y Y' Z Z' : list nat),
+  gequiv g g' ->
+  wf g ->
+  U g = nil ->
+  fresh_ok g fresh ->
+  fresh_ok g' fresh' ->
+  incl X (V g) ->
+  incl Y (V g) ->
+  incl Z (V g) ->
+  (forall a : nat, In a X <-> In a X') ->
+  (forall a : nat, In a Y <-> In a Y') ->
+  (forall a : nat, In a Z <-> In a Z') ->
+  msep (canon_model g fresh) X Y Z <-> msep (canon_model g' fresh') X' Y' Z'.
+Proof. exact Equiv_C10.canon_sep_gequiv. Qed.
+Print Assumptions model_order_free_c10_canon_sep.
+
+Theorem model_equivariant_c10_canon_model :
+  forall (F : nat -> nat) (g : mgraph) (fresh : nat -> nat),
+  injective F ->
+  fresh_ok g fresh ->
+  exists fresh2 : nat -> nat,
+    fresh_ok (rmap F g) fresh2 /\ gequiv (canon_model (rmap F g) fresh2) (rmap F (canon_model g fresh)).
+Proof. exact Equiv_C10s.canon_model_rmap. Qed.
+Print Assumptions model_equivariant_c10_canon_model.
+
+Theorem spec_equivariant_c10_canon_structure :
+  forall (F : nat -> nat) (g : mgraph) (fresh : nat -> nat),
+  injective F ->
+  wf g ->
+  fresh_ok g fresh ->
+  exists fresh2 : nat -> nat,
+    fresh_ok (rmap F g) fresh2 /\ canon_structure_of (rmap F g) fresh2 (rmap F (canon_model g fresh)).
+Proof. exact Equiv_C10s.canon_structure_rmap. Qed.
+Print Assumptions spec_equivariant_c10_canon_structure.
+
+Theorem spec_order_free_c10_canon_structure :
+  forall (g : mgraph) (fresh : nat -> nat) (c c' : mgraph),
+  gequiv c c' -> canon_structure_of g fresh c -> canon_structure_of g fresh c'.
+Proof. exact Equiv_C10s.canon_structure_of_gequiv. Qed.
+Print Assumptions spec_order_free_c10_canon_structure.
+
+
+(* ---- C04 / C05 (vocabulary of C04/Dag.v, shared with C08 / C09) ---- *)
+Theorem spec_equivariant_c04_Padj :
+  forall f : nat -> nat,
+  injective f -> forall (g : mgraph) (a b : nat), Padj (rmap f g) (f a) (f b) <-> Padj g a b.
+Proof. exact Equiv_C0405.Padj_rmap. Qed.
+Print Assumptions spec_equivariant_c04_Padj.
+
+Theorem spec_equivariant_c04_Vstr :
+  forall f : nat -> nat,
+  injective f -> forall (g : mgraph) (a c b : nat), Vstr (rmap f g) (f a) (f c) (f b) <-> Vstr g a c b.
+Proof. exact Equiv_C0405.Vstr_rmap. Qed.
+Print Assumptions spec_equivariant_c04_Vstr.
+
+Theorem spec_equivariant_c04_acyclic :
+  forall f : nat -> nat, injective f -> forall g : mgraph, Dag.acyclic (rmap f g) <-> Dag.acyclic g.
+Proof. exact Equiv_C0405.dag_acyclic_rmap. Qed.
+Print Assumptions spec_equivariant_c04_acyclic.
+
+Theorem spec_equivariant_c04_is_dag :
+  forall f : nat -> nat, injective f -> forall g : mgraph, Dag.is_dag (rmap f g) <-> Dag.is_dag g.
+Proof. exact Equiv_C0405.is_dag_rmap. Qed.
+Print Assumptions spec_equivariant_c04_is_dag.
+
+Theorem spec_equivariant_c04_meq :
+  forall f : nat -> nat, injective f -> forall d1 d2 : mgraph, meq (rmap f d1) (rmap f d2) <-> meq d1 d2.
+Proof. exact Equiv_C0405.meq_rmap. Qed.
+Print Assumptions spec_equivariant_c04_meq.
+
+Theorem spec_equivariant_c04_essential :
+  forall f : nat -> nat,
+  injective f -> forall (d : mgraph) (a b : nat), essential (rmap f d) (f a) (f b) <-> essential d a b.
+Proof. exact Equiv_C0405.essential_rmap. Qed.
+Print Assumptions spec_equivariant_c04_essential.
+
+Theorem spec_equivariant_c05_wf_pdag :
+  forall f : nat -> nat, injective f -> forall p : mgraph, wf_pdag (rmap f p) <-> wf_pdag p.
+Proof. exact Equiv_C0405.wf_pdag_rmap. Qed.
+Print Assumptions spec_equivariant_c05_wf_pdag.
+
+Theorem spec_equivariant_c05_consistent_ext :
+  forall f : nat -> nat,
+  injective f -> forall p d : mgraph, Dag.consistent_ext (rmap f p) (rmap f d) <-> Dag.consistent_ext p d.
+Proof. exact Equiv_C0405.consistent_ext_rmap. Qed.
+Print Assumptions spec_equivariant_c05_consistent_ext.
+
+Theorem spec_equivariant_c05_extendable :
+  forall f : nat -> nat,
+  injective f ->
+  forall p : mgraph,
+  (exists d' : mgraph, Dag.consistent_ext (rmap f p) d') <-> (exists d : mgraph, Dag.consistent_ext p d).
+Proof. exact Equiv_C0405.extendable_rmap. Qed.
+Print Assumptions spec_equivariant_c05_extendable.
+
+Theorem spec_order_free_c04_Padj :
+  forall (g g' : mgraph) (a b : nat), gequiv g g' -> Padj g a b <-> Padj g' a b.
+Proof. exact Equiv_C0405.Padj_gequiv. Qed.
+Print Assumptions spec_order_free_c04_Padj.
+
+Theorem spec_order_free_c04_Vstr :
+  forall (g g' : mgraph) (a c b : nat), gequiv g g' -> Vstr g a c b <-> Vstr g' a c b.
+Proof. exact Equiv_C0405.Vstr_gequiv. Qed.
+Print Assumptions spec_order_free_c04_Vstr.
+
+Theorem spec_order_free_c04_acyclic :
+  forall g g' : mgraph, gequiv g g' -> Dag.acyclic g <-> Dag.acyclic g'.
+Proof. exact Equiv_C0405.dag_acyclic_gequiv. Qed.
+Print Assumptions spec_order_free_c04_acyclic.
+
+Theorem spec_order_free_c04_is_dag :
+  forall g g' : mgraph, gequiv g g' -> Dag.is_dag g <-> Dag.is_dag g'.
+Proof. exact Equiv_C0405.is_dag_gequiv. Qed.
+Print Assumptions spec_order_free_c04_is_dag.
+
+Theorem spec_order_free_c04_meq :
+  forall d1 d1' d2 d2' : mgraph, gequiv d1 d1' -> gequiv d2 d2' -> meq d1 d2 <-> meq d1' d2'.
+Proof. exact Equiv_C0405.meq_gequiv. Qed.
+Print Assumptions spec_order_free_c04_meq.
+
+Theorem spec_order_free_c04_essential :
+  forall (d d' : mgraph) (a b : nat), gequiv d d' -> essential d a b <-> essential d' a b.
+Proof. exact Equiv_C0405.essential_gequiv. Qed.
+Print Assumptions spec_order_free_c04_essential.
+
+Theorem spec_order_free_c05_wf_pdag :
+  forall p p' : mgraph, gequiv p p' -> wf_pdag p <-> wf_pdag p'.
+Proof. exact Equiv_C0405.wf_pdag_gequiv. Qed.
+Print Assumptions spec_order_free_c05_wf_pdag.
+
+Theorem spec_order_free_c05_consistent_ext :
+  forall p p' d d' : mgraph, gequiv p p' -> gequiv d d' -> Dag.consistent_ext p d <-> Dag.consistent_ext p' d'.
+Proof. exact Equiv_C0405.consistent_ext_gequiv. Qed.
+Print Assumptions spec_order_free_c05_consistent_ext.
+
+Theorem spec_order_free_c05_extendable :
+  forall p p' : mgraph,
+  gequiv p p' -> (exists d : mgraph, Dag.consistent_ext p d) <-> (exists d : mgraph, Dag.consistent_ext p' d).
+Proof. exact Equiv_C0405.extendable_gequiv. Qed.
+Print Assumptions spec_order_free_c05_extendable.
+
+Theorem model_equivariant_c05_pdag_none :
+  forall f : nat -> nat,
+  injective f -> forall p : mgraph, wf_pdag p -> pdag_model (rmap f p) = None <-> pdag_model p = None.
+Proof. exact Equiv_C0405.pdag_model_rmap_none. Qed.
+Print Assumptions model_equivariant_c05_pdag_none.
+
+Theorem model_equivariant_c05_pdag_some :
+  forall f : nat -> nat,
+  injective f ->
+  forall p d' : mgraph,
+  wf_pdag p ->
+  pdag_model (rmap f p) = Some d' ->
+  exists d0 d : mgraph,
+    d' = rmap f d0 /\ Dag.consistent_ext p d0 /\ pdag_model p = Some d /\ Dag.consistent_ext p d.
+Proof. exact Equiv_C0405.pdag_model_rmap_some. Qed.
+Print Assumptions model_equivariant_c05_pdag_some.
+
+Theorem model_order_free_c05_pdag_none :
+  forall p p' : mgraph, gequiv p p' -> wf_pdag p -> pdag_model p = None <-> pdag_model p' = None.
+Proof. exact Equiv_C0405.pdag_model_gequiv_none. Qed.
+Print Assumptions model_order_free_c05_pdag_none.
+
+
+(* ---- C06: inducing paths, dag_to_mag ---- *)
+Theorem spec_equivariant_c06_inducing_path :
+  forall f : nat -> nat,
+  injective f ->
+  forall (g : mgraph) (L S : list nat) (x : nat) (p : spath) (y : nat),
+  inducing_path_def (rmap f g) (map f L) (map f S) (f x) (mp f p) (f y) <-> inducing_path_def g L S x p y.
+Proof. exact Equiv_C06.inducing_path_def_rmap. Qed.
+Print Assumptions spec_equivariant_c06_inducing_path.
+
+Theorem spec_equivariant_c06_inducing_path_ex :
+  forall f : nat -> nat,
+  injective f ->
+  forall (g : mgraph) (L S : list nat) (x y : nat),
+  (exists p' : spath, inducing_path_def (rmap f g) (map f L) (map f S) (f x) p' (f y)) <->
+  (exists p : spath, inducing_path_def g L S x p y).
+Proof. exact Equiv_C06.inducing_path_ex_rmap. Qed.
+Print Assumptions spec_equivariant_c06_inducing_path_ex.
+
+Theorem spec_order_free_c06_inducing_path :
+  forall (g g' : mgraph) (L L' S S' : list nat) (x : nat) (p : spath) (y : nat),
+  gequiv g g' ->
+  (forall a : nat, In a L <-> In a L') ->
+  (forall a : nat, In a S <-> In a S') -> inducing_path_def g L S x p y <-> inducing_path_def g' L' S' x p y.
+Proof. exact Equiv_C06.inducing_path_def_order_free. Qed.
+Print Assumptions spec_order_free_c06_inducing_path.
+
+Theorem spec_order_free_c06_inducing_path_ex :
+  forall (g g' : mgraph) (L L' S S' : list nat) (x y : nat),
+  gequiv g g' ->
+  (forall a : nat, In a L <-> In a L') ->
+  (forall a : nat, In a S <-> In a S') ->
+  (exists p : spath, inducing_path_def g L S x p y) <-> (exists p : spath, inducing_path_def g' L' S' x p y).
+Proof. exact Equiv_C06.inducing_path_ex_order_free. Qed.
+Print Assumptions spec_order_free_c06_inducing_path_ex.
+
+Theorem spec_equivariant_c06_is_dag :
+  forall f : nat -> nat, injective f -> forall d : mgraph, is_dag (rmap f d) <-> is_dag d.
+Proof. exact Equiv_C06.c06_is_dag_rmap. Qed.
+Print Assumptions spec_equivariant_c06_is_dag.
+
+Theorem spec_order_free_c06_is_dag :
+  forall d d' : mgraph, gequiv d d' -> is_dag d <-> is_dag d'.
+Proof. exact Equiv_C06.c06_is_dag_order_free. Qed.
+Print Assumptions spec_order_free_c06_is_dag.
+
+Theorem spec_equivariant_c06_dsep :
+  forall f : nat -> nat,
+  injective f ->
+  forall (d : mgraph) (X Y Z : list nat), dsep (rmap f d) (map f X) (map f Y) (map f Z) <-> dsep d X Y Z.
+Proof. exact Equiv_C06.dsep_rmap. Qed.
+Print Assumptions spec_equivariant_c06_dsep.
+
+Theorem spec_order_free_c06_dsep :
+  forall (d d' : mgraph) (X X' Y Y' Z Z' : list nat),
+  gequiv d d' ->
+  (forall a : nat, In a X <-> In a X') ->
+  (forall a : nat, In a Y <-> In a Y') ->
+  (forall a : nat, In a Z <-> In a Z') -> dsep d X Y Z <-> dsep d' X' Y' Z'.
+Proof. exact Equiv_C06.dsep_order_free. Qed.
+Print Assumptions spec_order_free_c06_dsep.
+
+Theorem spec_equivariant_c06_adj_sep_free :
+  forall f : nat -> nat,
+  injective f ->
+  forall (d : mgraph) (L S : list nat) (x y : nat),
+  Equiv_C06.adj_sep_free (rmap f d) (map f L) (map f S) (f x) (f y) <-> Equiv_C06.adj_sep_free d L S x y.
+Proof. exact Equiv_C06.adj_sep_free_rmap. Qed.
+Print Assumptions spec_equivariant_c06_adj_sep_free.
+
+Theorem spec_order_free_c06_adj_sep_free :
+  forall (d d' : mgraph) (L L' S S' : list nat) (x y : nat),
+  gequiv d d' ->
+  (forall a : nat, In a L <-> In a L') ->
+  (forall a : nat, In a S <-> In a S') ->
+  Equiv_C06.adj_sep_free d L S x y <-> Equiv_C06.adj_sep_free d' L' S' x y.
+Proof. exact Equiv_C06.adj_sep_free_order_free. Qed.
+Print Assumptions spec_order_free_c06_adj_sep_free.
+
+Theorem spec_equivariant_c06_dsep_given :
+  forall f : nat -> nat,
+  injective f ->
+  forall (d : mgraph) (S : list nat) (x y : nat) (Z : list nat),
+  Equiv_C06.dsep_given (rmap f d) (map f S) (f x) (f y) (map f Z) <-> Equiv_C06.dsep_given d S x y Z.
+Proof. exact Equiv_C06.dsep_given_rmap. Qed.
+Print Assumptions spec_equivariant_c06_dsep_given.
+
+Theorem spec_order_free_c06_dsep_given :
+  forall (d d' : mgraph) (S S' : list nat) (x y : nat) (Z Z' : list nat),
+  gequiv d d' ->
+  (forall a : nat, In a S <-> In a S') ->
+  (forall a : nat, In a Z <-> In a Z') -> Equiv_C06.dsep_given d S x y Z <-> Equiv_C06.dsep_given d' S' x y Z'.
+Proof. exact Equiv_C06.dsep_given_order_free. Qed.
+Print Assumptions spec_order_free_c06_dsep_given.
+
+Theorem spec_equivariant_c06_mag_adjacency_stmt :
+  forall f : nat -> nat,
+  injective f ->
+  forall (d : mgraph) (L S : list nat),
+  mag_adjacency_stmt (rmap f d) (map f L) (map f S) <-> mag_adjacency_stmt d L S.
+Proof. exact Equiv_C06.mag_adjacency_stmt_rmap. Qed.
+Print Assumptions spec_equivariant_c06_mag_adjacency_stmt.
+
+Theorem spec_equivariant_c06_mag_independence_stmt :
+  forall f : nat -> nat,
+  injective f ->
+  forall (d : mgraph) (L S : list nat),
+  mag_independence_stmt (rmap f d) (map f L) (map f S) <-> mag_independence_stmt d L S.
+Proof. exact Equiv_C06.mag_independence_stmt_rmap. Qed.
+Print Assumptions spec_equivariant_c06_mag_independence_stmt.
+
+Theorem model_equivariant_c06_inducing_fst :
+  forall (f : nat -> nat) (g : mgraph) (x y : nat) (L S : list nat),
+  injective f ->
+  incl (x :: y :: S) (V g) ->
+  fst (inducing_model (rmap f g) (f x) (f y) (map f L) (map f S)) = fst (inducing_model g x y L S).
+Proof. exact Equiv_C06.inducing_model_fst_rmap. Qed.
+Print Assumptions model_equivariant_c06_inducing_fst.
+
+Theorem model_order_free_c06_inducing_fst :
+  forall (g g' : mgraph) (x y : nat) (L L' S S' : list nat),
+  gequiv g g' ->
+  (forall a : nat, In a L <-> In a L') ->
+  (forall a : nat, In a S <-> In a S') ->
+  incl (x :: y :: S) (V g) -> fst (inducing_model g x y L S) = fst (inducing_model g' x y L' S').
+Proof. exact Equiv_C06.inducing_model_fst_order_free. Qed.
+Print Assumptions model_order_free_c06_inducing_fst.
+
+Theorem model_equivariant_c06_inducing_model :
+  forall f : nat -> nat,
+  injective f ->
+  forall (g : mgraph) (x y : nat) (L S : list nat),
+  inducing_model (rmap f g) (f x) (f y) (map f L) (map f S) =
+  (fst (inducing_model g x y L S), map f (snd (inducing_model g x y L S))).
+Proof. exact Equiv_C06.inducing_model_rmap. Qed.
+Print Assumptions model_equivariant_c06_inducing_model.
+
+Theorem model_equivariant_c06_dag_to_mag :
+  forall f : nat -> nat,
+  injective f ->
+  forall (d : mgraph) (L S : list nat),
+  dag_to_mag_model (rmap f d) (map f L) (map f S) = rmap f (dag_to_mag_model d L S).
+Proof. exact Equiv_C06.dag_to_mag_model_rmap. Qed.
+Print Assumptions model_equivariant_c06_dag_to_mag.
+
+
+(* ---- C07: MAG definition clauses ---- *)
+Theorem spec_equivariant_c07_dpath_plus :
+  forall f : nat -> nat,
+  injective f -> forall (g : mgraph) (a b : nat), dpath_plus (rmap f g) (f a) (f b) <-> dpath_plus g a b.
+Proof. exact Equiv_C07.dpath_plus_rmap. Qed.
+Print Assumptions spec_equivariant_c07_dpath_plus.
+
+Theorem spec_equivariant_c07_no_bow :
+  forall f : nat -> nat, injective f -> forall g : mgraph, no_bow_p (rmap f g) <-> no_bow_p g.
+Proof. exact Equiv_C07.no_bow_p_rmap. Qed.
+Print Assumptions spec_equivariant_c07_no_bow.
+
+Theorem spec_equivariant_c07_acyclic :
+  forall f : nat -> nat, injective f -> forall g : mgraph, acyclic_p (rmap f g) <-> acyclic_p g.
+Proof. exact Equiv_C07.acyclic_p_rmap. Qed.
+Print Assumptions spec_equivariant_c07_acyclic.
+
+Theorem spec_equivariant_c07_ancestral_bi :
+  forall f : nat -> nat, injective f -> forall g : mgraph, ancestral_bi_p (rmap f g) <-> ancestral_bi_p g.
+Proof. exact Equiv_C07.ancestral_bi_p_rmap. Qed.
+Print Assumptions spec_equivariant_c07_ancestral_bi.
+
+Theorem spec_equivariant_c07_maximal :
+  forall f : nat -> nat, injective f -> forall g : mgraph, maximal_p (rmap f g) <-> maximal_p g.
+Proof. exact Equiv_C07.maximal_p_rmap. Qed.
+Print Assumptions spec_equivariant_c07_maximal.
+
+Theorem spec_equivariant_c07_is_admg :
+  forall f : nat -> nat, injective f -> forall g : mgraph, is_admg (rmap f g) <-> is_admg g.
+Proof. exact Equiv_C07.c07_is_admg_rmap. Qed.
+Print Assumptions spec_equivariant_c07_is_admg.
+
+Theorem spec_order_free_c07_dpath_plus :
+  forall (g g' : mgraph) (a b : nat), gequiv g g' -> dpath_plus g a b <-> dpath_plus g' a b.
+Proof. exact Equiv_C07.dpath_plus_order_free. Qed.
+Print Assumptions spec_order_free_c07_dpath_plus.
+
+Theorem spec_order_free_c07_no_bow :
+  forall g g' : mgraph, gequiv g g' -> no_bow_p g <-> no_bow_p g'.
+Proof. exact Equiv_C07.no_bow_p_order_free. Qed.
+Print Assumptions spec_order_free_c07_no_bow.
+
+Theorem spec_order_free_c07_acyclic :
+  forall g g' : mgraph, gequiv g g' -> acyclic_p g <-> acyclic_p g'.
+Proof. exact Equiv_C07.acyclic_p_order_free. Qed.
+Print Assumptions spec_order_free_c07_acyclic.
+
+Theorem spec_order_free_c07_ancestral_bi :
+  forall g g' : mgraph, gequiv g g' -> ancestral_bi_p g <-> ancestral_bi_p g'.
+Proof. exact Equiv_C07.ancestral_bi_p_order_free. Qed.
+Print Assumptions spec_order_free_c07_ancestral_bi.
+
+Theorem spec_order_free_c07_maximal :
+  forall g g' : mgraph, gequiv g g' -> maximal_p g <-> maximal_p g'.
+Proof. exact Equiv_C07.maximal_p_order_free. Qed.
+Print Assumptions spec_order_free_c07_maximal.
+
+Theorem spec_order_free_c07_is_admg :
+  forall g g' : mgraph, gequiv g g' -> NoDup (V g) <-> NoDup (V g') -> is_admg g <-> is_admg g'.
+Proof. exact Equiv_C07.c07_is_admg_order_free. Qed.
+Print Assumptions spec_order_free_c07_is_admg.
+
+Theorem model_equivariant_c07_is_maximal :
+  forall f : nat -> nat, injective f -> forall g : mgraph, is_maximal_model (rmap f g) = is_maximal_model g.
+Proof. exact Equiv_C07.is_maximal_model_rmap. Qed.
+Print Assumptions model_equivariant_c07_is_maximal.
+
+Theorem model_equivariant_c07_has_adc :
+  forall f : nat -> nat, injective f -> forall g : mgraph, has_adc_model (rmap f g) = has_adc_model g.
+Proof. exact Equiv_C07.has_adc_model_rmap. Qed.
+Print Assumptions model_equivariant_c07_has_adc.
+
+Theorem model_equivariant_c07_valid_mag :
+  forall f : nat -> nat, injective f -> forall g : mgraph, valid_mag_model (rmap f g) = valid_mag_model g.
+Proof. exact Equiv_C07.valid_mag_model_rmap. Qed.
+Print Assumptions model_equivariant_c07_valid_mag.
+
+Theorem model_order_free_c07_is_maximal :
+  forall g g' : mgraph, gequiv g g' -> is_maximal_model g = is_maximal_model g'.
+Proof. exact Equiv_C07.is_maximal_model_order_free. Qed.
+Print Assumptions model_order_free_c07_is_maximal.
+
+Theorem model_order_free_c07_valid_mag :
+  forall g g' : mgraph, gequiv g g' -> wf g -> valid_mag_model g = valid_mag_model g'.
+Proof. exact Equiv_C07.valid_mag_model_order_free. Qed.
+Print Assumptions model_order_free_c07_valid_mag.
+
+
+(* ---- C16: semi-directed paths, possible descendants / ancestors ---- *)
+Theorem spec_equivariant_c16_semi_edge :
+  forall f : nat -> nat,
+  injective f -> forall (g : mgraph) (u v : nat), semi_edge (rmap f g) (f u) (f v) <-> semi_edge g u v.
+Proof. exact Equiv_C16.semi_edge_rmap. Qed.
+Print Assumptions spec_equivariant_c16_semi_edge.
+
+Theorem spec_equivariant_c16_semi_path :
+  forall f : nat -> nat,
+  injective f -> forall (g : mgraph) (p : list nat), semi_path (rmap f g) (map f p) <-> semi_path g p.
+Proof. exact Equiv_C16.semi_path_rmap. Qed.
+Print Assumptions spec_equivariant_c16_semi_path.
+
+Theorem spec_equivariant_c16_semi_target_path :
+  forall f : nat -> nat,
+  injective f ->
+  forall (g : mgraph) (s : nat) (T : list nat) (k : nat) (p : list nat),
+  semi_target_path (rmap f g) (f s) (map f T) k (map f p) <-> semi_target_path g s T k p.
+Proof. exact Equiv_C16.semi_target_path_rmap. Qed.
+Print Assumptions spec_equivariant_c16_semi_target_path.
+
+Theorem spec_equivariant_c16_no_lone_circle :
+  forall f : nat -> nat, injective f -> forall g : mgraph, no_lone_circle (rmap f g) <-> no_lone_circle g.
+Proof. exact Equiv_C16.no_lone_circle_rmap. Qed.
+Print Assumptions spec_equivariant_c16_no_lone_circle.
+
+Theorem spec_equivariant_c16_semi_reach :
+  forall f : nat -> nat,
+  injective f ->
+  forall (g : mgraph) (s v : nat),
+  (exists p' : list nat, semi_path (rmap f g) p' /\ hd_error p' = Some (f s) /\ last p' (f s) = f v) <->
+  (exists p : list nat, semi_path g p /\ hd_error p = Some s /\ last p s = v).
+Proof. exact Equiv_C16.semi_reach_rmap. Qed.
+Print Assumptions spec_equivariant_c16_semi_reach.
+
+Theorem spec_order_free_c16_semi_edge :
+  forall (g g' : mgraph) (u v : nat), gequiv g g' -> semi_edge g u v <-> semi_edge g' u v.
+Proof. exact Equiv_C16.semi_edge_gequiv. Qed.
+Print Assumptions spec_order_free_c16_semi_edge.
+
+Theorem spec_order_free_c16_semi_path :
+  forall (g g' : mgraph) (p : list nat), gequiv g g' -> semi_path g p <-> semi_path g' p.
+Proof. exact Equiv_C16.semi_path_gequiv. Qed.
+Print Assumptions spec_order_free_c16_semi_path.
+
+Theorem spec_order_free_c16_semi_target_path :
+  forall (g g' : mgraph) (s : nat) (T T' : list nat) (k : nat) (p : list nat),
+  gequiv g g' ->
+  (forall a : nat, In a T <-> In a T') -> semi_target_path g s T k p <-> semi_target_path g' s T' k p.
+Proof. exact Equiv_C16.semi_target_path_gequiv. Qed.
+Print Assumptions spec_order_free_c16_semi_target_path.
+
+Theorem spec_order_free_c16_no_lone_circle :
+  forall g g' : mgraph, gequiv g g' -> no_lone_circle g <-> no_lone_circle g'.
+Proof. exact Equiv_C16.no_lone_circle_gequiv. Qed.
+Print Assumptions spec_order_free_c16_no_lone_circle.
+
+Theorem spec_order_free_c16_semi_reach :
+  forall (g g' : mgraph) (s v : nat),
+  gequiv g g' ->
+  (exists p : list nat, semi_path g p /\ hd_error p = Some s /\ last p s = v) <->
+  (exists p : list nat, semi_path g' p /\ hd_error p = Some s /\ last p s = v).
+Proof. exact Equiv_C16.semi_reach_gequiv. Qed.
+Print Assumptions spec_order_free_c16_semi_reach.
+
+Theorem model_equivariant_c16_is_semi :
+  forall f : nat -> nat,
+  injective f -> forall (g : mgraph) (p : list nat), is_semi_model (rmap f g) (map f p) = is_semi_model g p.
+Proof. exact Equiv_C16.is_semi_model_rmap. Qed.
+Print Assumptions model_equivariant_c16_is_semi.
+
+Theorem model_equivariant_c16_semi_enum :
+  forall f : nat -> nat,
+  injective f ->
+  forall (g : mgraph) (s : nat) (T : list nat) (k : nat) (p : list nat),
+  In s (V g) -> In (map f p) (semi_enum (rmap f g) (f s) (map f T) k) <-> In p (semi_enum g s T k).
+Proof. exact Equiv_C16.semi_enum_rmap. Qed.
+Print Assumptions model_equivariant_c16_semi_enum.
+
+Theorem model_equivariant_c16_semi_enum_ex :
+  forall f : nat -> nat,
+  injective f ->
+  forall (g : mgraph) (s : nat) (T : list nat) (k : nat) (p' : list nat),
+  In s (V g) ->
+  In p' (semi_enum (rmap f g) (f s) (map f T) k) ->
+  exists p : list nat, p' = map f p /\ In p (semi_enum g s T k).
+Proof. exact Equiv_C16.semi_enum_rmap_ex. Qed.
+Print Assumptions model_equivariant_c16_semi_enum_ex.
+
+Theorem model_equivariant_c16_poss_desc :
+  forall f : nat -> nat,
+  injective f -> forall (g : mgraph) (s : nat), poss_desc (rmap f g) (f s) = map f (poss_desc g s).
+Proof. exact Equiv_C16.poss_desc_rmap_eq. Qed.
+Print Assumptions model_equivariant_c16_poss_desc.
+
+Theorem model_equivariant_c16_poss_anc :
+  forall f : nat -> nat,
+  injective f -> forall (g : mgraph) (s : nat), poss_anc (rmap f g) (f s) = map f (poss_anc g s).
+Proof. exact Equiv_C16.poss_anc_rmap_eq. Qed.
+Print Assumptions model_equivariant_c16_poss_anc.
+
+Theorem model_order_free_c16_is_semi :
+  forall (g g' : mgraph) (p : list nat), gequiv g g' -> is_semi_model g p = is_semi_model g' p.
+Proof. exact Equiv_C16.is_semi_model_gequiv. Qed.
+Print Assumptions model_order_free_c16_is_semi.
+
+Theorem model_order_free_c16_semi_enum :
+  forall (g g' : mgraph) (s : nat) (T T' : list nat) (k : nat) (p : list nat),
+  gequiv g g' ->
+  (forall a : nat, In a T <-> In a T') -> In s (V g) -> In p (semi_enum g s T k) <-> In p (semi_enum g' s T' k).
+Proof. exact Equiv_C16.semi_enum_gequiv. Qed.
+Print Assumptions model_order_free_c16_semi_enum.
+
+Theorem model_order_free_c16_semi_enum_NoDup :
+  forall (g g' : mgraph) (s : nat) (T T' : list nat) (k : nat),
+  gequiv g g' ->
+  (forall a : nat, In a T <-> In a T') ->
+  In s (V g) ->
+  NoDup (V g) ->
+  NoDup (V g') ->
+  NoDup (semi_enum g s T k) /\
+  NoDup (semi_enum g' s T' k) /\ (forall p : list nat, In p (semi_enum g s T k) <-> In p (semi_enum g' s T' k)).
+Proof. exact Equiv_C16.semi_enum_gequiv_NoDup. Qed.
+Print Assumptions model_order_free_c16_semi_enum_NoDup.
+
+Theorem model_order_free_c16_poss_desc :
+  forall (g g' : mgraph) (s v : nat),
+  gequiv g g' -> In s (V g) -> In v (poss_desc g s) <-> In v (poss_desc g' s).
+Proof. exact Equiv_C16.poss_desc_gequiv. Qed.
+Print Assumptions model_order_free_c16_poss_desc.
+
+Theorem model_order_free_c16_poss_anc :
+  forall (g g' : mgraph) (s v : nat), gequiv g g' -> In s (V g) -> In v (poss_anc g s) <-> In v (poss_anc g' s).
+Proof. exact Equiv_C16.poss_anc_gequiv. Qed.
+Print Assumptions model_order_free_c16_poss_anc.
+
+
+(* ---- C17: possibly-d-sep sets (both readings), guards, blocks ---- *)
+Theorem spec_equivariant_c17_pds_def_path :
+  forall f : nat -> nat,
+  injective f ->
+  forall (g : mgraph) (x : nat) (yo : option nat) (v : nat),
+  pds_def_path (rmap f g) (f x) (option_map f yo) (f v) <-> pds_def_path g x yo v.
+Proof. exact Equiv_C17.pds_def_path_rmap. Qed.
+Print Assumptions spec_equivariant_c17_pds_def_path.
+
+Theorem spec_equivariant_c17_pds_def_walk :
+  forall f : nat -> nat,
+  injective f ->
+  forall (g : mgraph) (x : nat) (yo : option nat) (v : nat),
+  pds_def_walk (rmap f g) (f x) (option_map f yo) (f v) <-> pds_def_walk g x yo v.
+Proof. exact Equiv_C17.pds_def_walk_rmap. Qed.
+Print Assumptions spec_equivariant_c17_pds_def_walk.
+
+Theorem spec_equivariant_c17_walk_ok :
+  forall f : nat -> nat,
+  injective f ->
+  forall (g : mgraph) (x : nat) (yo : option nat) (t : list nat),
+  walk_ok (rmap f g) (f x) (option_map f yo) (map f t) <-> walk_ok g x yo t.
+Proof. exact Equiv_C17.walk_ok_rmap. Qed.
+Print Assumptions spec_equivariant_c17_walk_ok.
+
+Theorem spec_equivariant_c17_connected :
+  forall f : nat -> nat,
+  injective f -> forall (g : mgraph) (x y : nat), connected (rmap f g) (f x) (f y) <-> connected g x y.
+Proof. exact Equiv_C17.connected_rmap. Qed.
+Print Assumptions spec_equivariant_c17_connected.
+
+Theorem spec_equivariant_c17_guard_ok :
+  forall f : nat -> nat,
+  injective f ->
+  forall (g : mgraph) (x : nat) (yo : option nat),
+  guard_ok (rmap f g) (f x) (option_map f yo) <-> guard_ok g x yo.
+Proof. exact Equiv_C17.guard_ok_rmap. Qed.
+Print Assumptions spec_equivariant_c17_guard_ok.
+
+Theorem spec_equivariant_c17_on_block :
+  forall f : nat -> nat,
+  injective f -> forall (g : mgraph) (x y v : nat), on_block (rmap f g) (f x) (f y) (f v) <-> on_block g x y v.
+Proof. exact Equiv_C17.on_block_rmap. Qed.
+Print Assumptions spec_equivariant_c17_on_block.
+
+Theorem spec_equivariant_c17_pds_def_asis :
+  forall f : nat -> nat,
+  injective f ->
+  forall (g : mgraph) (x : nat) (yo : option nat) (v : nat),
+  pds_def_asis (rmap f g) (f x) (option_map f yo) (f v) <-> pds_def_asis g x yo v.
+Proof. exact Equiv_C17.pds_def_asis_rmap. Qed.
+Print Assumptions spec_equivariant_c17_pds_def_asis.
+
+Theorem spec_order_free_c17_pds_def_path :
+  forall (g g' : mgraph) (x : nat) (yo : option nat) (v : nat),
+  gequiv g g' -> pds_def_path g x yo v <-> pds_def_path g' x yo v.
+Proof. exact Equiv_C17.pds_def_path_gequiv. Qed.
+Print Assumptions spec_order_free_c17_pds_def_path.
+
+Theorem spec_order_free_c17_pds_def_walk :
+  forall (g g' : mgraph) (x : nat) (yo : option nat) (v : nat),
+  gequiv g g' -> pds_def_walk g x yo v <-> pds_def_walk g' x yo v.
+Proof. exact Equiv_C17.pds_def_walk_gequiv. Qed.
+Print Assumptions spec_order_free_c17_pds_def_walk.
+
+Theorem spec_order_free_c17_walk_ok :
+  forall (g g' : mgraph) (x : nat) (yo : option nat) (t : list nat),
+  gequiv g g' -> walk_ok g x yo t <-> walk_ok g' x yo t.
+Proof. exact Equiv_C17.walk_ok_gequiv. Qed.
+Print Assumptions spec_order_free_c17_walk_ok.
+
+Theorem spec_order_free_c17_connected :
+  forall (g g' : mgraph) (x y : nat), gequiv g g' -> connected g x y <-> connected g' x y.
+Proof. exact Equiv_C17.connected_gequiv. Qed.
+Print Assumptions spec_order_free_c17_connected.
+
+Theorem spec_order_free_c17_guard_ok :
+  forall (g g' : mgraph) (x : nat) (yo : option nat), gequiv g g' -> guard_ok g x yo <-> guard_ok g' x yo.
+Proof. exact Equiv_C17.guard_ok_gequiv. Qed.
+Print Assumptions spec_order_free_c17_guard_ok.
+
+Theorem spec_order_free_c17_on_block :
+  forall (g g' : mgraph) (x y v : nat), gequiv g g' -> on_block g x y v <-> on_block g' x y v.
+Proof. exact Equiv_C17.on_block_gequiv. Qed.
+Print Assumptions spec_order_free_c17_on_block.
+
+Theorem spec_order_free_c17_pds_def_asis :
+  forall (g g' : mgraph) (x : nat) (yo : option nat) (v : nat),
+  gequiv g g' -> pds_def_asis g x yo v <-> pds_def_asis g' x yo v.
+Proof. exact Equiv_C17.pds_def_asis_gequiv. Qed.
+Print Assumptions spec_order_free_c17_pds_def_asis.
+
+Theorem model_equivariant_c17_conn :
+  forall f : nat -> nat,
+  injective f -> forall (g : mgraph) (x y : nat), conn (rmap f g) (f x) (f y) = conn g x y.
+Proof. exact Equiv_C17.conn_rmap. Qed.
+Print Assumptions model_equivariant_c17_conn.
+
+Theorem model_equivariant_c17_pds_model :
+  forall (f : nat -> nat) (g : mgraph) (x : nat) (yo : option nat) (v : nat),
+  injective f ->
+  In x (V g) -> In (f v) (pds_model (rmap f g) (f x) (option_map f yo)) <-> In v (pds_model g x yo).
+Proof. exact Equiv_C17.pds_model_rmap. Qed.
+Print Assumptions model_equivariant_c17_pds_model.
+
+Theorem model_equivariant_c17_pds_model_ex :
+  forall (f : nat -> nat) (g : mgraph) (x : nat) (yo : option nat) (v' : nat),
+  injective f ->
+  In x (V g) ->
+  In v' (pds_model (rmap f g) (f x) (option_map f yo)) -> exists v : nat, v' = f v /\ In v (pds_model g x yo).
+Proof. exact Equiv_C17.pds_model_rmap_ex. Qed.
+Print Assumptions model_equivariant_c17_pds_model_ex.
+
+Theorem model_order_free_c17_conn :
+  forall (g g' : mgraph) (x y : nat), gequiv g g' -> In x (V g) -> conn g x y = conn g' x y.
+Proof. exact Equiv_C17.conn_gequiv. Qed.
+Print Assumptions model_order_free_c17_conn.
+
+Theorem model_order_free_c17_pds_model :
+  forall (g g' : mgraph) (x : nat) (yo : option nat) (v : nat),
+  gequiv g g' -> In x (V g) -> In v (pds_model g x yo) <-> In v (pds_model g' x yo).
+Proof. exact Equiv_C17.pds_model_gequiv. Qed.
+Print Assumptions model_order_free_c17_pds_model.
+
+
+(* ---- C18: uncovered potentially-directed paths, discriminating paths ---- *)
+Theorem spec_equivariant_c18_pd_edge_def :
+  forall f : nat -> nat,
+  injective f ->
+  forall (g : mgraph) (fc : bool) (a b : nat), pd_edge_def (rmap f g) fc (f a) (f b) <-> pd_edge_def g fc a b.
+Proof. exact Equiv_C18.pd_edge_def_rmap. Qed.
+Print Assumptions spec_equivariant_c18_pd_edge_def.
+
+Theorem spec_equivariant_c18_updp_shape :
+  forall f : nat -> nat,
+  injective f ->
+  forall (u c : nat) (o : uopts) (p : list nat),
+  updp_shape (f u) (f c) (Equiv_C18.omap f o) (map f p) <-> updp_shape u c o p.
+Proof. exact Equiv_C18.updp_shape_rmap. Qed.
+Print Assumptions spec_equivariant_c18_updp_shape.
+
+Theorem spec_equivariant_c18_updp_def :
+  forall f : nat -> nat,
+  injective f ->
+  forall (g : mgraph) (u c : nat) (o : uopts) (p : list nat),
+  updp_def (rmap f g) (f u) (f c) (Equiv_C18.omap f o) (map f p) <-> updp_def g u c o p.
+Proof. exact Equiv_C18.updp_def_rmap. Qed.
+Print Assumptions spec_equivariant_c18_updp_def.
+
+Theorem spec_equivariant_c18_updp_exists :
+  forall f : nat -> nat,
+  injective f ->
+  forall (g : mgraph) (u c : nat) (o : uopts),
+  (exists p' : list nat, updp_def (rmap f g) (f u) (f c) (Equiv_C18.omap f o) p') <->
+  (exists p : list nat, updp_def g u c o p).
+Proof. exact Equiv_C18.updp_exists_rmap. Qed.
+Print Assumptions spec_equivariant_c18_updp_exists.
+
+Theorem spec_equivariant_c18_disc_def :
+  forall f : nat -> nat,
+  injective f ->
+  forall par par' : nat -> bool,
+  (forall a : nat, par' (f a) = par a) ->
+  forall (g : mgraph) (u a c : nat) (p : list nat),
+  disc_def (rmap f g) par' (f u) (f a) (f c) (map f p) <-> disc_def g par u a c p.
+Proof. exact Equiv_C18.disc_def_rmap. Qed.
+Print Assumptions spec_equivariant_c18_disc_def.
+
+Theorem spec_equivariant_c18_disc_exists :
+  forall f : nat -> nat,
+  injective f ->
+  forall par par' : nat -> bool,
+  (forall a : nat, par' (f a) = par a) ->
+  forall (g : mgraph) (u a c : nat),
+  (exists p' : list nat, disc_def (rmap f g) par' (f u) (f a) (f c) p') <->
+  (exists p : list nat, disc_def g par u a c p).
+Proof. exact Equiv_C18.disc_exists_rmap. Qed.
+Print Assumptions spec_equivariant_c18_disc_exists.
+
+Theorem spec_equivariant_c18_par_of :
+  forall f : nat -> nat,
+  injective f ->
+  forall (g : mgraph) (fc : bool) (a c q : nat), par_of (rmap f g) fc (f a) (f c) (f q) = par_of g fc a c q.
+Proof. exact Equiv_C18.par_of_rmap. Qed.
+Print Assumptions spec_equivariant_c18_par_of.
+
+Theorem spec_equivariant_c18_disc_def_strict :
+  forall f : nat -> nat,
+  injective f ->
+  forall (g : mgraph) (u a c : nat) (p : list nat),
+  disc_def (rmap f g) (strict (rmap f g) (f a) (f c)) (f u) (f a) (f c) (map f p) <->
+  disc_def g (strict g a c) u a c p.
+Proof. exact Equiv_C18.disc_def_strict_rmap. Qed.
+Print Assumptions spec_equivariant_c18_disc_def_strict.
+
+Theorem spec_equivariant_c18_disc_exists_strict :
+  forall f : nat -> nat,
+  injective f ->
+  forall (g : mgraph) (u a c : nat),
+  (exists p' : list nat, disc_def (rmap f g) (strict (rmap f g) (f a) (f c)) (f u) (f a) (f c) p') <->
+  (exists p : list nat, disc_def g (strict g a c) u a c p).
+Proof. exact Equiv_C18.disc_exists_strict_rmap. Qed.
+Print Assumptions spec_equivariant_c18_disc_exists_strict.
+
+Theorem spec_order_free_c18_pd_edge_def :
+  forall (g g' : mgraph) (fc : bool) (a b : nat), gequiv g g' -> pd_edge_def g fc a b <-> pd_edge_def g' fc a b.
+Proof. exact Equiv_C18.pd_edge_def_gequiv. Qed.
+Print Assumptions spec_order_free_c18_pd_edge_def.
+
+Theorem spec_order_free_c18_updp_def :
+  forall (g g' : mgraph) (u c : nat) (o : uopts) (p : list nat),
+  gequiv g g' -> updp_def g u c o p <-> updp_def g' u c o p.
+Proof. exact Equiv_C18.updp_def_gequiv. Qed.
+Print Assumptions spec_order_free_c18_updp_def.
+
+Theorem spec_order_free_c18_disc_def :
+  forall (g g' : mgraph) (par par' : nat -> bool) (u a c : nat) (p : list nat),
+  gequiv g g' -> (forall q : nat, par q = par' q) -> disc_def g par u a c p <-> disc_def g' par' u a c p.
+Proof. exact Equiv_C18.disc_def_gequiv. Qed.
+Print Assumptions spec_order_free_c18_disc_def.
+
+Theorem spec_order_free_c18_disc_def_strict :
+  forall (g g' : mgraph) (u a c : nat) (p : list nat),
+  gequiv g g' -> disc_def g (strict g a c) u a c p <-> disc_def g' (strict g' a c) u a c p.
+Proof. exact Equiv_C18.disc_def_strict_gequiv. Qed.
+Print Assumptions spec_order_free_c18_disc_def_strict.
+
+Theorem spec_order_free_c18_par_of :
+  forall (g g' : mgraph) (fc : bool) (a c q : nat), gequiv g g' -> par_of g fc a c q = par_of g' fc a c q.
+Proof. exact Equiv_C18.par_of_gequiv. Qed.
+Print Assumptions spec_order_free_c18_par_of.
+
+Theorem model_equivariant_c18_updp_paths :
+  forall f : nat -> nat,
+  injective f ->
+  forall (g : mgraph) (u c : nat) (o : uopts) (p : list nat),
+  In (map f p) (updp_paths (rmap f g) (f u) (f c) (Equiv_C18.omap f o)) <-> In p (updp_paths g u c o).
+Proof. exact Equiv_C18.updp_paths_rmap. Qed.
+Print Assumptions model_equivariant_c18_updp_paths.
+
+Theorem model_equivariant_c18_spec_updp_dec :
+  forall f : nat -> nat,
+  injective f ->
+  forall (g : mgraph) (u c : nat) (o : uopts),
+  spec_updp_dec (rmap f g) (f u) (f c) (Equiv_C18.omap f o) = spec_updp_dec g u c o.
+Proof. exact Equiv_C18.spec_updp_dec_rmap. Qed.
+Print Assumptions model_equivariant_c18_spec_updp_dec.
+
+Theorem model_equivariant_c18_disc_paths :
+  forall f : nat -> nat,
+  injective f ->
+  forall par par' : nat -> bool,
+  (forall a : nat, par' (f a) = par a) ->
+  forall (g : mgraph) (u a c : nat) (p : list nat),
+  In (map f p) (disc_paths (rmap f g) par' (f u) (f a) (f c)) <-> In p (disc_paths g par u a c).
+Proof. exact Equiv_C18.disc_paths_rmap. Qed.
+Print Assumptions model_equivariant_c18_disc_paths.
+
+Theorem model_equivariant_c18_spec_disc_dec :
+  forall f : nat -> nat,
+  injective f ->
+  forall par par' : nat -> bool,
+  (forall a : nat, par' (f a) = par a) ->
+  forall (g : mgraph) (u a c : nat), spec_disc_dec (rmap f g) par' (f u) (f a) (f c) = spec_disc_dec g par u a c.
+Proof. exact Equiv_C18.spec_disc_dec_rmap. Qed.
+Print Assumptions model_equivariant_c18_spec_disc_dec.
+
+Theorem model_equivariant_c18_spec_disc_dec_strict :
+  forall f : nat -> nat,
+  injective f ->
+  forall (g : mgraph) (u a c : nat),
+  spec_disc_dec (rmap f g) (strict (rmap f g) (f a) (f c)) (f u) (f a) (f c) =
+  spec_disc_dec g (strict g a c) u a c.
+Proof. exact Equiv_C18.spec_disc_dec_strict_rmap. Qed.
+Print Assumptions model_equivariant_c18_spec_disc_dec_strict.
+
+Theorem model_order_free_c18_updp_paths :
+  forall (g g' : mgraph) (u c : nat) (o : uopts) (p : list nat),
+  gequiv g g' -> In p (updp_paths g u c o) <-> In p (updp_paths g' u c o).
+Proof. exact Equiv_C18.updp_paths_gequiv. Qed.
+Print Assumptions model_order_free_c18_updp_paths.
+
+Theorem model_order_free_c18_spec_updp_dec :
+  forall (g g' : mgraph) (u c : nat) (o : uopts), gequiv g g' -> spec_updp_dec g u c o = spec_updp_dec g' u c o.
+Proof. exact Equiv_C18.spec_updp_dec_gequiv. Qed.
+Print Assumptions model_order_free_c18_spec_updp_dec.
+
+Theorem model_order_free_c18_disc_paths :
+  forall (g g' : mgraph) (par par' : nat -> bool) (u a c : nat) (p : list nat),
+  gequiv g g' ->
+  (forall q : nat, par q = par' q) -> In p (disc_paths g par u a c) <-> In p (disc_paths g' par' u a c).
+Proof. exact Equiv_C18.disc_paths_gequiv. Qed.
+Print Assumptions model_order_free_c18_disc_paths.
+
+Theorem model_order_free_c18_spec_disc_dec :
+  forall (g g' : mgraph) (par par' : nat -> bool) (u a c : nat),
+  gequiv g g' -> (forall q : nat, par q = par' q) -> spec_disc_dec g par u a c = spec_disc_dec g' par' u a c.
+Proof. exact Equiv_C18.spec_disc_dec_gequiv. Qed.
+Print Assumptions model_order_free_c18_spec_disc_dec.
+
+
+(* ---- C19: sigma-separation, acyclification ---- *)
+Theorem spec_equivariant_c19_same_scc :
+  forall f : nat -> nat,
+  injective f -> forall (g : mgraph) (a b : nat), same_scc (rmap f g) (f a) (f b) <-> same_scc g a b.
+Proof. exact Equiv_C19.same_scc_rmap. Qed.
+Print Assumptions spec_equivariant_c19_same_scc.
+
+Theorem spec_order_free_c19_same_scc :
+  forall (g g' : mgraph) (a b : nat), gequiv g g' -> same_scc g a b <-> same_scc g' a b.
+Proof. exact Equiv_C19.same_scc_gequiv. Qed.
+Print Assumptions spec_order_free_c19_same_scc.
+
+Theorem spec_equivariant_c19_sigma_conn :
+  forall f : nat -> nat,
+  injective f ->
+  forall (g : mgraph) (Z : list nat) (x : nat) (p : spath) (y : nat),
+  sigma_conn (rmap f g) (map f Z) (f x) (mp f p) (f y) <-> sigma_conn g Z x p y.
+Proof. exact Equiv_C19.sigma_conn_rmap. Qed.
+Print Assumptions spec_equivariant_c19_sigma_conn.
+
+Theorem spec_order_free_c19_sigma_conn :
+  forall (g g' : mgraph) (Z Z' : list nat) (x : nat) (p : spath) (y : nat),
+  gequiv g g' -> (forall a : nat, In a Z <-> In a Z') -> sigma_conn g Z x p y <-> sigma_conn g' Z' x p y.
+Proof. exact Equiv_C19.sigma_conn_gequiv. Qed.
+Print Assumptions spec_order_free_c19_sigma_conn.
+
+Theorem spec_equivariant_c19_sigma_sep :
+  forall f : nat -> nat,
+  injective f ->
+  forall (g : mgraph) (X Y Z : list nat),
+  sigma_sep (rmap f g) (map f X) (map f Y) (map f Z) <-> sigma_sep g X Y Z.
+Proof. exact Equiv_C19.sigma_sep_rmap. Qed.
+Print Assumptions spec_equivariant_c19_sigma_sep.
+
+Theorem spec_order_free_c19_sigma_sep :
+  forall (g g' : mgraph) (X X' Y Y' Z Z' : list nat),
+  gequiv g g' ->
+  (forall a : nat, In a X <-> In a X') ->
+  (forall a : nat, In a Y <-> In a Y') ->
+  (forall a : nat, In a Z <-> In a Z') -> sigma_sep g X Y Z <-> sigma_sep g' X' Y' Z'.
+Proof. exact Equiv_C19.sigma_sep_order_free. Qed.
+Print Assumptions spec_order_free_c19_sigma_sep.
+
+Theorem spec_equivariant_c19_acy_edges_of :
+  forall f : nat -> nat,
+  injective f -> forall g r : mgraph, acy_edges_of (rmap f g) (rmap f r) <-> acy_edges_of g r.
+Proof. exact Equiv_C19.acy_edges_of_rmap. Qed.
+Print Assumptions spec_equivariant_c19_acy_edges_of.
+
+Theorem spec_order_free_c19_acy_edges_of :
+  forall g g' r r' : mgraph,
+  gequiv g g' -> gequiv r r' -> V r = V g -> V r' = V g' -> acy_edges_of g r <-> acy_edges_of g' r'.
+Proof. exact Equiv_C19.acy_edges_of_order_free. Qed.
+Print Assumptions spec_order_free_c19_acy_edges_of.
+
+Theorem model_equivariant_c19_acy_model :
+  forall f : nat -> nat, injective f -> forall g : mgraph, gequiv (acy_model (rmap f g)) (rmap f (acy_model g)).
+Proof. exact Equiv_C19.acy_model_rmap. Qed.
+Print Assumptions model_equivariant_c19_acy_model.
+
+Theorem model_order_free_c19_acy_model :
+  forall g g' : mgraph, gequiv g g' -> gequiv (acy_model g) (acy_model g').
+Proof. exact Equiv_C19.acy_model_order_free. Qed.
+Print Assumptions model_order_free_c19_acy_model.
+
+
+(* ---- C11: (minimal) separators ---- *)
+Theorem spec_equivariant_c11_sep_in :
+  forall f : nat -> nat,
+  injective f ->
+  forall (g : mgraph) (x y : nat) (I0 R Z : list nat),
+  sep_in (rmap f g) (f x) (f y) (map f I0) (map f R) (map f Z) <-> sep_in g x y I0 R Z.
+Proof. exact Equiv_C11.sep_in_rmap. Qed.
+Print Assumptions spec_equivariant_c11_sep_in.
+
+Theorem spec_equivariant_c11_minimal_sep_in :
+  forall f : nat -> nat,
+  injective f ->
+  forall (g : mgraph) (x y : nat) (I0 R Z : list nat),
+  minimal_sep_in (rmap f g) (f x) (f y) (map f I0) (map f R) (map f Z) <-> minimal_sep_in g x y I0 R Z.
+Proof. exact Equiv_C11.minimal_sep_in_rmap. Qed.
+Print Assumptions spec_equivariant_c11_minimal_sep_in.
+
+Theorem spec_equivariant_c11_query_ok :
+  forall f : nat -> nat,
+  injective f ->
+  forall (g : mgraph) (x y : nat) (I0 R : list nat),
+  query_ok (rmap f g) (f x) (f y) (map f I0) (map f R) <-> query_ok g x y I0 R.
+Proof. exact Equiv_C11.query_ok_rmap. Qed.
+Print Assumptions spec_equivariant_c11_query_ok.
+
+Theorem spec_order_free_c11_sep_in :
+  forall (g g' : mgraph) (x y : nat) (I0 I0' R R' Z Z' : list nat),
+  gequiv g g' ->
+  (forall a : nat, In a I0 <-> In a I0') ->
+  (forall a : nat, In a R <-> In a R') ->
+  (forall a : nat, In a Z <-> In a Z') -> sep_in g x y I0 R Z <-> sep_in g' x y I0' R' Z'.
+Proof. exact Equiv_C11.sep_in_order_free. Qed.
+Print Assumptions spec_order_free_c11_sep_in.
+
+Theorem spec_order_free_c11_minimal_sep_in :
+  forall (g g' : mgraph) (x y : nat) (I0 I0' R R' Z Z' : list nat),
+  gequiv g g' ->
+  (forall a : nat, In a I0 <-> In a I0') ->
+  (forall a : nat, In a R <-> In a R') ->
+  (forall a : nat, In a Z <-> In a Z') -> minimal_sep_in g x y I0 R Z <-> minimal_sep_in g' x y I0' R' Z'.
+Proof. exact Equiv_C11.minimal_sep_in_order_free. Qed.
+Print Assumptions spec_order_free_c11_minimal_sep_in.
+
+Theorem spec_order_free_c11_query_ok :
+  forall (g g' : mgraph) (x y : nat) (I0 I0' R R' : list nat),
+  gequiv g g' ->
+  (forall a : nat, In a I0 <-> In a I0') ->
+  (forall a : nat, In a R <-> In a R') -> query_ok g x y I0 R <-> query_ok g' x y I0' R'.
+Proof. exact Equiv_C11.query_ok_order_free. Qed.
+Print Assumptions spec_order_free_c11_query_ok.
+
+Theorem spec_order_free_c11_in_domain :
+  forall g g' : mgraph, gequiv g g' -> in_domain g <-> in_domain g'.
+Proof. exact Equiv_C11.in_domain_order_free. Qed.
+Print Assumptions spec_order_free_c11_in_domain.
+
+
+(* ---- C08 / C09: Meek rules / PAG-to-MAG soundness specs ---- *)
+Theorem spec_equivariant_c08_simple_pdag :
+  forall f : nat -> nat, injective f -> forall g : mgraph, simple_pdag (rmap f g) <-> simple_pdag g.
+Proof. exact Equiv_C0809.simple_pdag_rmap. Qed.
+Print Assumptions spec_equivariant_c08_simple_pdag.
+
+Theorem spec_equivariant_c08_rule_closed :
+  forall f : nat -> nat, injective f -> forall q : mgraph, rule_closed (rmap f q) <-> rule_closed q.
+Proof. exact Equiv_C0809.rule_closed_rmap. Qed.
+Print Assumptions spec_equivariant_c08_rule_closed.
+
+Theorem spec_equivariant_c08_consistent_ext :
+  forall f : nat -> nat,
+  injective f -> forall p d : mgraph, consistent_ext (rmap f p) (rmap f d) <-> consistent_ext p d.
+Proof. exact Equiv_C0809.consistent_ext_rmap. Qed.
+Print Assumptions spec_equivariant_c08_consistent_ext.
+
+Theorem spec_equivariant_c08_sound_for :
+  forall f : nat -> nat, injective f -> forall p q : mgraph, sound_for (rmap f p) (rmap f q) <-> sound_for p q.
+Proof. exact Equiv_C0809.sound_for_rmap. Qed.
+Print Assumptions spec_equivariant_c08_sound_for.
+
+Theorem spec_equivariant_c08_only_orients :
+  forall f : nat -> nat,
+  injective f -> forall p q : mgraph, only_orients (rmap f p) (rmap f q) <-> only_orients p q.
+Proof. exact Equiv_C0809.only_orients_rmap. Qed.
+Print Assumptions spec_equivariant_c08_only_orients.
+
+Theorem spec_equivariant_c09_structure_kept :
+  forall f : nat -> nat,
+  injective f -> forall g m : mgraph, structure_kept (rmap f g) (rmap f m) <-> structure_kept g m.
+Proof. exact Equiv_C0809.structure_kept_rmap. Qed.
+Print Assumptions spec_equivariant_c09_structure_kept.
+
+Theorem spec_order_free_c08_simple_pdag :
+  forall g g' : mgraph, gequiv g g' -> simple_pdag g <-> simple_pdag g'.
+Proof. exact Equiv_C0809.simple_pdag_order_free. Qed.
+Print Assumptions spec_order_free_c08_simple_pdag.
+
+Theorem spec_order_free_c08_rule_closed :
+  forall q q' : mgraph, gequiv q q' -> rule_closed q <-> rule_closed q'.
+Proof. exact Equiv_C0809.rule_closed_order_free. Qed.
+Print Assumptions spec_order_free_c08_rule_closed.
+
+Theorem spec_order_free_c08_consistent_ext :
+  forall p p' d d' : mgraph, gequiv p p' -> gequiv d d' -> consistent_ext p d <-> consistent_ext p' d'.
+Proof. exact Equiv_C0809.consistent_ext_order_free. Qed.
+Print Assumptions spec_order_free_c08_consistent_ext.
+
+Theorem spec_order_free_c08_sound_for :
+  forall p p' q q' : mgraph, gequiv p p' -> gequiv q q' -> sound_for p q <-> sound_for p' q'.
+Proof. exact Equiv_C0809.sound_for_order_free. Qed.
+Print Assumptions spec_order_free_c08_sound_for.
+
+Theorem spec_order_free_c08_only_orients_rel :
+  forall p p' q q' : mgraph,
+  gequiv p p' -> gequiv q q' -> Equiv_C0809.only_orients_rel p q <-> Equiv_C0809.only_orients_rel p' q'.
+Proof. exact Equiv_C0809.only_orients_rel_order_free. Qed.
+Print Assumptions spec_order_free_c08_only_orients_rel.
+
+Theorem spec_order_free_c09_structure_kept :
+  forall g g' m m' : mgraph,
+  gequiv g g' -> gequiv m m' -> V m = V g -> V m' = V g' -> structure_kept g m <-> structure_kept g' m'.
+Proof. exact Equiv_C0809.structure_kept_order_free. Qed.
+Print Assumptions spec_order_free_c09_structure_kept.
+
